@@ -185,6 +185,8 @@ pub struct Ctx {
     pub evidence_name: String,
     /// the quick tier of this check uses the thorough tier's bounds (cheap checks)
     pub promoted: bool,
+    /// a single case that runs longer than this is reported as a violation (hang)
+    pub case_timeout_s: u64,
 }
 
 fn panic_msg(p: Box<dyn std::any::Any + Send>) -> String {
@@ -282,6 +284,10 @@ impl Ctx {
             machinery_errors: Vec::new(),
             evidence_name: property.to_string(),
             promoted: false,
+            case_timeout_s: std::env::var("VERIF_CASE_TIMEOUT").ok().and_then(|v| v.parse().ok()).unwrap_or(match tier {
+                Tier::Quick => 300,
+                Tier::Thorough => 1800,
+            }),
         }
     }
     /// for checks whose thorough bounds are cheap: explore them in the quick tier too
@@ -369,9 +375,34 @@ impl Ctx {
         let sample_a = lo;
         let sample_b = lo + (hi - lo) / 2;
         let sample_c = hi.saturating_sub(1);
+        // hang detection: every worker publishes (index + 1, start time in ms) of the case it is running; a
+        // monitor thread turns a case that does not return within `case_timeout` (a library routine looping
+        // on some input) into a violation: the process cannot unwind a stuck thread, so the violation is
+        // reported directly (replay file + VIOLATION line) and the process exits with status 1.
+        let t_sweep = Instant::now();
+        let cur_idx: Vec<AtomicU64> = (0..nthreads).map(|_| AtomicU64::new(0)).collect();
+        let cur_t0: Vec<AtomicU64> = (0..nthreads).map(|_| AtomicU64::new(0)).collect();
+        let workers_left = AtomicU64::new(nthreads as u64);
+        let case_timeout_ms = self.case_timeout_s * 1000;
+        let property = self.property.clone();
+        let tier_s = if self.tier == Tier::Quick { "quick" } else { "thorough" };
         std::thread::scope(|s| {
-            for _ in 0..nthreads {
-                s.spawn(|| {
+            s.spawn(|| {
+                while workers_left.load(Ordering::Relaxed) > 0 {
+                    std::thread::sleep(Duration::from_millis(250));
+                    let now = t_sweep.elapsed().as_millis() as u64;
+                    for w in 0..nthreads {
+                        let idx1 = cur_idx[w].load(Ordering::Relaxed);
+                        let t0 = cur_t0[w].load(Ordering::Relaxed);
+                        if idx1 != 0 && now.saturating_sub(t0) > case_timeout_ms && cur_idx[w].load(Ordering::Relaxed) == idx1 {
+                            report_hang(&property, tier_s, name, idx1 - 1, case_timeout_ms / 1000);
+                        }
+                    }
+                }
+            });
+            for w in 0..nthreads {
+                let (cur_idx, cur_t0, workers_left, next, stop, done, merged, f) = (&cur_idx, &cur_t0, &workers_left, &next, &stop, &done, &merged, &f);
+                s.spawn(move || {
                     let mut loc = Loc::new(name);
                     QUIET_PANICS.with(|q| q.set(true));
                     loop {
@@ -388,7 +419,10 @@ impl Ctx {
                             loc.cur_nontrivial = false;
                             loc.cur_failed = false;
                             loc.want_sample = i == sample_a || i == sample_b || i == sample_c;
+                            cur_t0[w].store(t_sweep.elapsed().as_millis() as u64, Ordering::Relaxed);
+                            cur_idx[w].store(i + 1, Ordering::Relaxed);
                             let r = catch_unwind(AssertUnwindSafe(|| f(i, &mut loc)));
+                            cur_idx[w].store(0, Ordering::Relaxed);
                             if let Err(p) = r {
                                 let at = LAST_PANIC_LOC.with(|c| c.borrow().clone());
                                 loc.fail_at("panic", format!("panic at {at}: {}", panic_msg(p)));
@@ -406,6 +440,7 @@ impl Ctx {
                         }
                     }
                     merged.lock().unwrap().push(loc);
+                    workers_left.fetch_sub(1, Ordering::Relaxed);
                 });
             }
         });
@@ -635,6 +670,19 @@ impl Ctx {
         }
         0
     }
+}
+
+/// A case did not return: report it as a violation of the current property and leave (the stuck thread
+/// cannot be unwound).  The replay file re-runs exactly this case, which hangs - and is reported - again.
+fn report_hang(property: &str, tier: &str, sweep: &str, index: u64, secs: u64) -> ! {
+    let _ = std::fs::create_dir_all(format!("{VERIF_DIR}/replays"));
+    let fname = format!("{VERIF_DIR}/replays/{}-{}-hang-{}.json", property, sweep.replace(['/', ' ', ':'], "_"), index);
+    let msg = format!("case did not return within {secs} s: a library routine is looping on this input (or slower by orders of magnitude)");
+    let rec = json!({"property": property, "sweep": sweep, "check": format!("{sweep}/hang"), "index": index, "msg": msg, "tier": tier});
+    let _ = std::fs::write(&fname, serde_json::to_string_pretty(&rec).unwrap());
+    println!("  violation: check={sweep}/hang index={index} {msg}");
+    println!("VIOLATION property={property} replay={fname}");
+    std::process::exit(1);
 }
 
 /// does the sweep recorded in a replay file designate the sweep `name`?  (violations
